@@ -54,7 +54,15 @@ func checkValue(ti *typeInfo, v uint64) string {
 		mask = ^uint64(0)
 	}
 	v &= mask
-	got := ti.Str(v)
+	var got string
+	var pnc any
+	func() {
+		defer func() { pnc = recover() }()
+		got = ti.Str(v)
+	}()
+	if pnc != nil {
+		return fmt.Sprintf("%s(%d).String() panicked: %v", ti.Name, v, pnc)
+	}
 	var names []string
 	for _, c := range ti.Consts {
 		if c.Value&mask == v {
@@ -121,7 +129,7 @@ func TestC20(t *testing.T) {
 				for b := 0; b < ti.Bits; b++ {
 					probe = append(probe, uint64(1)<<uint(b), uint64(1)<<uint(b)-1)
 				}
-				probe = append(probe, 0, ^uint64(0))
+				probe = append(probe, 0, 1, 2, 3, ^uint64(0))
 			}
 			for _, v := range probe {
 				mask := uint64(1)<<uint(ti.Bits) - 1
